@@ -55,7 +55,8 @@ def variants(d):
     elif k in rt.PARAM_BASE:
         other = "Logarithm" if k == "Exponential" else "Exponential"
         b = d[2] if len(d) > 2 else None
-        out += [("class", [other, d[1]] + ([b] if b else []))]
+        if not (other == "Logarithm" and b == 1):          # Logarithm(base=1) is rejected at construction: not a comparand
+            out += [("class", [other, d[1]] + ([b] if b else []))]
         out += [("param", [k, d[1], 3]), ("leaf", [k, Y] + ([b] if b else []))]
         if b:
             out += [("spelling", [k, d[1], float(b)])]
@@ -82,8 +83,10 @@ def jobs(tier, seed):
         for tag, v in variants(d):
             pair(["expr", d], ["expr", v], foreign=FOREIGN if tag == "same" else [], containers=(tag in ("same", "spelling")), tag=tag)
             if tag in ("same", "spelling", "param"):
+                vs_d = sorted(set(rt.variables_of(d)) | set(rt.variables_of(v)))
+                pt_all = [[n, k + 1] for k, n in enumerate(vs_d)]
                 for w, mk in (("Partial", lambda e: ["Partial", e, "x", 0]), ("Derivative", lambda e: ["Derivative", e, 0]),
-                              ("Differential", lambda e: ["Differential", e, 0]), ("LocatedDifferential", lambda e: ["LocatedDifferential", e, [["x", 1], ["y", 2]]])):
+                              ("Differential", lambda e: ["Differential", e, 0]), ("LocatedDifferential", lambda e: ["LocatedDifferential", e, pt_all])):
                     if w == "Derivative" and len(rt.variables_of(d)) > 1:
                         continue
                     pair(mk(d), mk(v), tag=tag + ":" + w, containers=True)
